@@ -91,6 +91,7 @@ def entries():
     from nflows.nn import nets
     from nflows.distributions.mixture import MADEMoG
     from nflows.transforms import nonlinearities as NL
+    from nflows.utils import torchutils
 
     def resnet(ctxf=None, hidden=8, bn=False, dropout=0.0):
         return lambda i, o: nets.ResidualNet(i, o, hidden_features=hidden, context_features=ctxf, num_blocks=1, use_batch_norm=bn, dropout_probability=dropout)
@@ -108,6 +109,9 @@ def entries():
     add("AffineCoupling", "transform", lambda: TR.AffineCouplingTransform(mask4, resnet()), _rn(4), flags={"inv"})
     add("AffineCoupling/ctx", "transform", lambda: TR.AffineCouplingTransform(mask4, resnet(3)), _rn(4), _rn(3), flags={"inv"})
     add("AffineCoupling/general-act", "transform", lambda: TR.AffineCouplingTransform(mask4, resnet(), scale_activation=TR.AffineCouplingTransform.GENERAL_SCALE_ACTIVATION), _rn(4), flags={"inv"})
+    # which features a layer leaves alone is drawn in the constructor (and travels in the index buffers)
+    add("AffineCoupling/random-mask", "transform", lambda: TR.AffineCouplingTransform(torchutils.create_random_binary_mask(6), lambda i, o: nets.ResidualNet(i, o, hidden_features=8, num_blocks=1)), _rn(6), flags={"inv", "ctor_random"})
+    add("PiecewiseRQCoupling/random-mask+tails", "transform", lambda: TR.PiecewiseRationalQuadraticCouplingTransform(torchutils.create_random_binary_mask(5), lambda i, o: nets.ResidualNet(i, o, hidden_features=8, num_blocks=1), num_bins=4, tails="linear", tail_bound=1.5), _rn(5), flags={"inv", "spline", "ctor_random"})
     add("AdditiveCoupling", "transform", lambda: TR.AdditiveCouplingTransform(mask4, resnet()), _rn(4), flags={"inv"})
     add("AffineCoupling/resnet-batchnorm", "transform", lambda: TR.AffineCouplingTransform(mask4, resnet(bn=True)), _rn(4), flags={"inv", "inner_bn"})
     add("AffineCoupling/image", "transform", lambda: TR.AffineCouplingTransform([1, 0, 1], convnet()), _rn(3, 2, 3), flags={"inv", "image"})
